@@ -1410,6 +1410,28 @@ func (e *Engine) checkCutsAt(st *State, fr *Frame, atReturn bool) {
 		if st.cuts[a.Name] {
 			continue
 		}
+		if a.Guard != nil {
+			env := e.specEnv(st, fr.old, fr.fn, fr.contract, nil)
+			env.vars = fr.params
+			skip := false
+			func() {
+				defer func() {
+					if r := recover(); r != nil {
+						if _, ok := r.(engineError); !ok {
+							panic(r)
+						}
+						skip = true
+					}
+				}()
+				if !knownTrue(st, st.sub(env.boolTerm(a.Guard))) {
+					skip = true
+				}
+			}()
+			if skip {
+				st.cuts[a.Name] = true // does not apply on this path
+				continue
+			}
+		}
 		ready := true
 		if a.After == "return" {
 			ready = atReturn
@@ -1449,6 +1471,7 @@ func (e *Engine) checkCutsAt(st *State, fr *Frame, atReturn bool) {
 		st.cuts[a.Name] = true
 		env := e.specEnv(st, fr.old, fr.fn, fr.contract, nil)
 		env.vars = fr.params
+
 		if a.Kind == "apply" {
 			// a lemma instance whose arguments cannot be evaluated on this path (nil pointer on an error
 			// path) is skipped: instances only add hypotheses
